@@ -1,7 +1,7 @@
 (* C01 - analytic component derivatives equal the true derivatives.  Property theorems only (statements printed by Coq from the libraries Real/*Deriv.v).  DR g t0 p  :=  g t0 = fst p /\ is_derive g t0 (snd p);  every theorem says: along ANY differentiable curve of the inputs, the dual-number evaluation of the component model gives the value and the derivative - hence every partial derivative (C01_dual_number_tangent_is_the_partial_derivative) and, by composition, every chain of components (part 8) *)
-From Coq Require Import Reals ZArith Lra Lia Arith Bool List.
+From Coq Require Import Reals ZArith Lra Lia Arith Bool List String.
 From Coquelicot Require Import Coquelicot.
-From OAS Require Import Scalar Rops Sums Deriv Dual DualProofs Drag DragDeriv Stress StressDeriv StressProofs Transfer TransferDeriv Loads LoadsDeriv Functionals FunctionalsDeriv Aero AeroDeriv PG PGDeriv Beam BeamTables BeamDeriv Geom GeomDeriv Misc MiscDeriv.
+From OAS Require Import Scalar Rops Sums Deriv Dual DualProofs Drag DragDeriv Stress StressDeriv StressProofs Transfer TransferDeriv Loads LoadsDeriv Functionals FunctionalsDeriv Aero AeroDeriv PG PGDeriv Beam BeamTables BeamDeriv Geom GeomDeriv Misc MiscDeriv MultiSec MultiSecDeriv.
 Open Scope R_scope.
 
 Theorem C01_Rotate :
@@ -38,4 +38,20 @@ Theorem C01_Energy :
   DR2 Dp t0 dp -> DR2 Ld t0 ld -> DR (fun t : R => energy ny (Dp t) (Ld t)) t0 (energy ny dp ld).
 Proof. exact energy_DR. Qed.
 Print Assumptions C01_Energy.
+
+(* multi-section wings: any number of sections, with and without the leading-edge shift *)
+Theorem C01_GeomMultiUnification :
+  forall (shift : bool) (S : list (nat * (R -> nat -> nat -> nat -> R)))
+    (s : list (nat * (nat -> nat -> nat -> dual R))) (t0 : R) (i j d : nat),
+  DRsecs S t0 s -> DR (fun t : R => fst (unify shift (at_secs t S)) i j d) t0 (fst (unify shift s) i j d).
+Proof. exact unify_DR. Qed.
+Print Assumptions C01_GeomMultiUnification.
+
+Theorem C01_GeomMultiJoin :
+  forall (npx nye : nat) (Me Mn : R -> nat -> nat -> nat -> R) (t0 : R) (me mn : nat -> nat -> nat -> dual R)
+    (r d : nat),
+  DR3 Me t0 me ->
+  DR3 Mn t0 mn -> DR (fun t : R => join_sep npx nye (Me t) (Mn t) r d) t0 (join_sep npx nye me mn r d).
+Proof. exact join_sep_DR. Qed.
+Print Assumptions C01_GeomMultiJoin.
 
